@@ -564,13 +564,18 @@ ObsChecks(h0, obs) ==
                                          /\ h.reqs[j].st \in {"acc", "unk", "pend"}
                                          /\ h.reqs[j].id \in {0, h.reqs[h.hmap[i]].id})
             ELSE h1
+      \* C05: in particular every handle of a discarded session reports invalidated
+      stale == {i \in wrong : h.reqs[h.hmap[i]].st # "dc" /\ Truth(h, h.hmap[i]) = "i"}
+      h2b == IF Len(obs.h) = Len(h.hmap) /\ stale # {}
+             THEN Viol(Tick(h2, "C05"), "C05", "a handle issued before a fresh broker session does not report invalidated")
+             ELSE h2
       \* C02 / C03: an accepted, unacknowledged request is still held
       held == {k \in 1..Len(h.reqs) : InFlight(h, k)}
       h3 == IF obs.q /\ held # {}
             THEN LET k == CHOOSE k \in held : TRUE IN
-                 Viol(h2, IF h.reqs[k].kind = "P1" THEN "C02" ELSE IF h.reqs[k].kind = "P2" THEN "C03" ELSE "C05",
+                 Viol(h2b, IF h.reqs[k].kind = "P1" THEN "C02" ELSE IF h.reqs[k].kind = "P2" THEN "C03" ELSE "C05",
                       "session reports quiescent although an accepted operation is unacknowledged")
-            ELSE h2
+            ELSE h2b
   IN [h3 EXCEPT !.lastio = obs.io, !.lastobs = obs]
 
 ---------------------------------------------------------------------------
@@ -751,9 +756,14 @@ RetDrive(h, e) ==
       h2 == IF o.bad /\ ~o.dc
             THEN Check(h1, rejected /\ ~e.obs.live, "C08", "malformed inbound packet was not rejected with the invalid-packet error")
             ELSE h1
-      h3 == IF rejected /\ ~o.bad /\ ~o.dc /\ ~o.unexp
-            THEN Check(h2, TailHopeless(h), "C08", "a valid inbound packet was rejected")
-            ELSE h2
+      h3a == IF rejected /\ ~o.bad /\ ~o.dc /\ ~o.unexp
+             THEN Check(h2, TailHopeless(h), "C08", "a valid inbound packet was rejected")
+             ELSE h2
+      \* C04: ... and if what was being read is a PUBLISH within the advertised limits, it was not delivered
+      h3 == IF rejected /\ ~o.bad /\ ~o.dc /\ ~o.unexp /\ ~TailHopeless(h) /\ Len(h.rtail) >= 1
+               /\ h.rtail[1] \div 16 = PUBLISH
+            THEN Viol(Tick(h3a, "C04"), "C04", "an inbound PUBLISH within the advertised limits was rejected instead of being delivered")
+            ELSE h3a
       \* C18: a failure reason code is surfaced by the poll that consumed it
       h4 == IF o.rej >= 0 /\ ~o.dc
             THEN Check(h3, r.k = "err" /\ r.v = "Rejected" /\ r.code = o.rej, "C18",
